@@ -1,7 +1,10 @@
 package checks
 
 import (
+	"encoding/json"
 	"fmt"
+	"os"
+	"sync"
 
 	"mvdan.cc/sh/v3/syntax"
 
@@ -11,16 +14,68 @@ import (
 
 func init() { Registry["C02"] = c02 }
 
+// c02ReducedConfigs is the representative configuration set used for the
+// larger program sets (layout deviations, depth-2 programs, Simplify): default,
+// each option alone, all layout options together, and Minify combinations.
+// KeepPadding is excluded by the property; Minify+SingleLine is refused by the
+// printer (C01 checks that), so neither appears here.
+func c02ReducedConfigs() []synt.Config {
+	return []synt.Config{
+		{}, {Indent: 4}, {Indent: 2, CaseInd: true, BinNext: true},
+		{BinNext: true}, {CaseInd: true}, {SpaceRed: true}, {FuncNext: true}, {Minify: true}, {Single: true},
+		{Indent: 2, BinNext: true, CaseInd: true, SpaceRed: true, FuncNext: true},
+		{BinNext: true, CaseInd: true, SpaceRed: true, FuncNext: true, Single: true},
+		{Minify: true, BinNext: true, SpaceRed: true}, {Minify: true, Indent: 4, CaseInd: true, FuncNext: true},
+		{Single: true, Indent: 3, SpaceRed: true},
+	}
+}
+
+// c02Diff is one non-idempotent (input, configuration) pair.
+type c02Diff struct {
+	Variant  string `json:"variant"`
+	Src      string `json:"src"`
+	Cfg      string `json:"cfg"`
+	Simplify bool   `json:"simplify,omitempty"`
+	P1       string `json:"p1"`
+	P2       string `json:"p2"`
+	Class    string `json:"class"`
+}
+
+// VERIF_C02_ALL=<file> (development aid) writes every non-idempotent
+// (input, configuration) pair with its class as one JSON object per line.
+var (
+	c02Counted sync.Map // input key + class, so re-executions do not count twice
+	c02AllMu   sync.Mutex
+	c02AllF  *os.File
+)
+
+func c02DumpAll(d c02Diff) {
+	path := os.Getenv("VERIF_C02_ALL")
+	if path == "" {
+		return
+	}
+	c02AllMu.Lock()
+	defer c02AllMu.Unlock()
+	if c02AllF == nil {
+		c02AllF, _ = os.Create(path)
+	}
+	if c02AllF != nil {
+		b, _ := json.Marshal(d)
+		c02AllF.Write(append(b, '\n'))
+	}
+}
+
 func c02(c *vc.Ctx) {
 	space := synSpace{Depth: 2, CoreOnly: true, LayoutDepth: 1, Corpus: true, AllVariantsDeep: !c.Quick()}
 	fullConfigs := synt.Configs(vc.Pick(c, []uint{0, 4}, []uint{0, 1, 2, 3, 4, 8}), false)
-	var reduced []synt.Config
-	for _, cfg := range reducedConfigs() {
-		if !cfg.KeepPad {
-			reduced = append(reduced, cfg)
+	for _, cfg := range fullConfigs {
+		if cfg.KeepPad {
+			panic("C02: KeepPadding is outside the property")
 		}
 	}
-	c.Rule = space.describe() + fmt.Sprintf("; configurations without KeepPadding: all %d for corpus and depth<=1 programs, %d representative ones for layout-deviation and depth-2 programs, each also with Simplify applied before printing (reduced set); oracle: Print(Parse(P1)) == P1 byte for byte where P1 = Print(Parse(src)); distinct = distinct P1 texts", len(fullConfigs), len(reduced))
+	reduced := c02ReducedConfigs()
+	c.Rule = space.describe() + fmt.Sprintf("; configurations without KeepPadding (and without the refused Minify+SingleLine): all %d for corpus and depth<=1 programs, %d representative ones for layout-deviation and depth-2 programs, each also with Simplify applied before printing (reduced set); oracle: Print(Parse(P1)) == P1 byte for byte where P1 = Print(Parse(src)) (with Simplify: P1 = Print(Simplify(Parse(src))), P2 = Print(Simplify(Parse(P1)))); every failing configuration of an input is classified, one failure is reported per (input, variant); distinct = distinct P1 texts", len(fullConfigs), len(reduced))
+	c.Assumptions = []string{"P1 not reparsing, or Print failing, is C01's business and not judged here"}
 	complete := vc.Run(c, func(emit func(synCase)) { genSyn(c, space, emit) }, func(t synCase) *vc.Fail {
 		ws := synt.GetWorkspace()
 		defer synt.PutWorkspace(ws)
@@ -37,6 +92,9 @@ func c02(c *vc.Ctx) {
 			cfgs = reduced
 		}
 		checked := map[string]bool{}
+		// first unclassified failure wins; otherwise the first classified one
+		var firstClassified, firstUnclassified *vc.Fail
+		seenClass := map[string]bool{}
 		one := func(cfg synt.Config, simplify bool, f *syntax.File) *vc.Fail {
 			if cfg.Minify && cfg.Single {
 				return nil
@@ -75,8 +133,31 @@ func c02(c *vc.Ctx) {
 				ws.Drop()
 				return fl
 			}
-			if p2 != p1 {
-				return &vc.Fail{Key: key + " idem", Msg: fmt.Sprintf("[%s] %s with %s: first format %s, second format %s", t.Variant, shortSrc(t.Src), tag, shortSrc(p1), shortSrc(p2))}
+			if p2 == p1 {
+				return nil
+			}
+			class := c02Classify(t.Src, lang, cfg, simplify, p1, p2)
+			if _, dup := c02Counted.LoadOrStore(key+"|"+tag, true); !dup {
+				c.Count("failing_input_config_pairs", 1)
+			}
+			c02DumpAll(c02Diff{t.Variant, t.Src, cfg.String(), simplify, p1, p2, class})
+			if !seenClass[class] {
+				seenClass[class] = true
+				if _, dup := c02Counted.LoadOrStore(key+"|"+class, true); dup {
+					// a re-execution of a reported failure: already counted
+				} else if class == "" {
+					c.Count("inputs_failing_unclassified", 1)
+				} else {
+					c.Count("inputs_failing_"+class, 1)
+				}
+			}
+			fl := &vc.Fail{Key: key + " refmt", Class: class, Msg: fmt.Sprintf("[%s] %s with %s: first format %s, second format %s", t.Variant, shortSrc(t.Src), tag, shortSrc(p1), shortSrc(p2))}
+			if class == "" {
+				if firstUnclassified == nil {
+					firstUnclassified = fl
+				}
+			} else if firstClassified == nil {
+				firstClassified = fl
 			}
 			return nil
 		}
@@ -94,6 +175,12 @@ func c02(c *vc.Ctx) {
 					return fl
 				}
 			}
+		}
+		if firstUnclassified != nil {
+			return firstUnclassified
+		}
+		if firstClassified != nil {
+			return firstClassified
 		}
 		if t.Kind == 2 {
 			c.Sample(map[string]any{"src": t.Src, "variant": t.Variant})
